@@ -15,6 +15,7 @@ pub trait Draw {
     fn i64(&mut self) -> i64;
     fn bool(&mut self) -> bool;
     fn f64(&mut self) -> f64;
+    fn array<const K: usize>(&mut self) -> [u8; K];
 }
 
 /// Symbolic source: every draw is one `kani::any()` of the stated type.
@@ -40,6 +41,7 @@ impl Draw for Sym {
     fn i64(&mut self) -> i64 { kani::any() }
     fn bool(&mut self) -> bool { kani::any() }
     fn f64(&mut self) -> f64 { kani::any() }
+    fn array<const K: usize>(&mut self) -> [u8; K] { kani::any() }
 }
 
 /// Concrete source: the `Vec<Vec<u8>>` of a Kani concrete-playback test, consumed in order
@@ -78,6 +80,13 @@ impl Draw for Conc {
     fn i64(&mut self) -> i64 { i64::from_le_bytes(self.take()) }
     fn bool(&mut self) -> bool { self.take::<1>()[0] & 1 == 1 }
     fn f64(&mut self) -> f64 { f64::from_le_bytes(self.take()) }
+    fn array<const K: usize>(&mut self) -> [u8; K] {
+        let mut a = [0u8; K];
+        for i in 0..K {
+            a[i] = self.u8();
+        }
+        a
+    }
 }
 
 /// Replay a Kani counterexample natively against the real code.  Returns Err(panic message) if
